@@ -155,6 +155,18 @@ func TestVerifGossipReplay(t *testing.T) {
 				e := vhMap(st.A, "e")
 				kind := vhStr(e, "kind")
 				payload, err := ghPayload(kind, vhInt(e, "plen", 0), vhBool(e, "parses"), vhMap(e, "req"), r)
+				if inner := vhStr(e, "inner"); inner != "" && kind == "hb" && vhBool(e, "parses") {
+					// the heartbeat BODY names a guardian address too (Heartbeat.guardian_addr): it has no authority,
+					// only the envelope address that the signature recovers to counts
+					err = fmt.Errorf("cannot hit length %d with an inner address", vhInt(e, "plen", 0))
+					for l := 0; l <= vhInt(e, "plen", 0); l++ {
+						b, merr := proto.Marshal(&gossipv1.Heartbeat{GuardianAddr: keys.Addr(inner).Hex(), NodeName: strings.Repeat("n", l)})
+						if merr == nil && len(b) == vhInt(e, "plen", 0) {
+							payload, err = b, nil
+							break
+						}
+					}
+				}
 				if err != nil {
 					skipped++ // the abstract envelope has no concrete counterpart; nothing is executed or logged
 					continue
